@@ -279,14 +279,47 @@ theorem gen_reported_roots_physical (cr : List ℝ → List ℝ × List ℝ) (T 
   have hp := reported_roots_physical c.1 c.2.1 roots hB hr
   exact ⟨(selectZ c.2.1 roots).1, (selectZ c.2.1 roots).2, hsel, hp.1, hp.2.1, hp.2.2.1, hp.2.2.2.1, hp.2.2.2.2.2⟩
 
-/-! ### non-vacuity: a concrete state satisfying the hypotheses -/
+/-- **The regenerated `fugacity` is evaluated inside the domain of its logarithms**: under the root-finder
+    contract and 0 < B, both compressibility factors that the regenerated `z_pr` hands to the fugacity expression
+    satisfy Z − B > 0 and (Z + (√2+1)B)/(Z − (√2−1)B) > 0 — so the positivity of the fugacities (`fugacity_pos`) is
+    not an artefact of the totalised `Real.log`. -/
+theorem gen_fugacity_log_args_pos (cr : List ℝ → List ℝ × List ℝ) (T P : ℝ) (m M Pc Tc w : List ℝ)
+    (δ A B G : List (List ℝ)) (cd r0 r1 r2 i0 i1 i2 : ℝ)
+    (hcr : ∀ p, cr p = ([r0, r1, r2], [i0, i1, i2])) :
+    let c := EosFullPy.coefs T P m M Pc Tc w δ A B G cd
+    let roots := [(r0, i0), (r1, i1), (r2, i2)]
+    0 < c.2.1 → RootsOf c.1 c.2.1 roots →
+    ∃ zg zl, (EosFullPy.z_pr cr T P m M Pc Tc w δ A B G cd).1 = [[zg], [zl]] ∧
+      (0 < zg - c.2.1 ∧ 0 < (zg + (Real.sqrt 2 + 1) * c.2.1) / (zg - (Real.sqrt 2 - 1) * c.2.1)) ∧
+      (0 < zl - c.2.1 ∧ 0 < (zl + (Real.sqrt 2 + 1) * c.2.1) / (zl - (Real.sqrt 2 - 1) * c.2.1)) := by
+  intro c roots hB hr
+  obtain ⟨zg, zl, hz, _, _, hBl, hlg, _⟩ := gen_reported_roots_physical cr T P m M Pc Tc w δ A B G cd r0 r1 r2 i0 i1 i2 hcr hB hr
+  exact ⟨zg, zl, hz, lnPhi_args_pos _ _ hB (lt_of_lt_of_le hBl hlg), lnPhi_args_pos _ _ hB hBl⟩
 
-/-- the contract and `0 < B` are satisfiable: A = 0.3, B = 0.05 … with the cubic
-    (Z − 1/2)(Z² − 9/20·Z + 1/10)·… replaced by an explicit single-real-root example:
-    A = 0, B = 1/2 gives cubic = (Z − 1/2)(Z² + 0·Z − …); we exhibit the easier fact that the
-    hypotheses of `spurious_root_exists` hold at A = 0, B = 1 -/
-example : (0:ℝ) < 1 ∧ (0:ℝ) < 1 + 1^2 := by norm_num
+/-! ### non-vacuity of the root-finder contract: A = 35/36, B = 5/6 has the three real roots −5/3, 1/6 (below B: the
+    spurious one) and 5/3 (the single physical root) -/
+private theorem cubic_example_factor (x : ℝ) : cubic (35/36) (5/6) x = (x + 5/3) * (x - 1/6) * (x - 5/3) := by
+  rw [cubic_real]; ring
 
+example : RootsOf (35/36) (5/6) [((-5/3 : ℝ), 0), (1/6, 0), (5/3, 0)] := by
+  constructor
+  · intro x hx
+    rw [cubic_example_factor] at hx
+    rcases mul_eq_zero.mp hx with h | h
+    · rcases mul_eq_zero.mp h with h | h
+      · exact ⟨(-5/3, 0), by simp, rfl, by simp; linarith⟩
+      · exact ⟨(1/6, 0), by simp, rfl, by simp; linarith⟩
+    · exact ⟨(5/3, 0), by simp, rfl, by simp; linarith⟩
+  · intro z hz _
+    rw [cubic_example_factor]
+    simp at hz
+    rcases hz with rfl | rfl | rfl <;> norm_num
+
+/-- … and on it the selection reports the single physical root for both phases -/
+example : ∃ zg zl : ℝ, cubic (35/36) (5/6) zg = 0 ∧ cubic (35/36) (5/6) zl = 0 ∧ (5/6 : ℝ) < zl ∧ zl ≤ zg :=
+  ⟨5/3, 5/3, by rw [cubic_example_factor]; norm_num, by rw [cubic_example_factor]; norm_num, by norm_num, le_refl _⟩
+
+/-- the hypotheses of `spurious_root_exists` hold at A = 0, B = 1 -/
 example : ∃ z : ℝ, 0 < z ∧ z < 1 ∧ cubic 0 1 z = 0 := spurious_root_exists 0 1 (by norm_num) (by norm_num)
 
 end TamocV.Props.C01
